@@ -1,9 +1,10 @@
 package c05
 
-// gen.go: the 135-cell matrix (3 trust levels x {PLog, WLog, create, update, re-apply} x
-// {slot empty, identical bytes, different bytes} x {mem, bbolt, cached}), enumerated on every run;
-// fixed extra scenarios (sys.Corrupted / invalid events, unknown trust level, re-apply through the
-// PLog cache, re-read updates, partial batches, duplicate ids); random multi-event scenarios.
+// gen.go: the matrix 3 trust levels x ({PLog, WLog} + {create, update, re-apply} x 6 record kinds) x
+// {slot empty, identical bytes, different bytes} x {mem, bbolt, cached} = 540 cells, enumerated on every
+// run; fixed extra scenarios (per record kind: same event applied twice; synced creates; ODoc argument;
+// sys.Corrupted / invalid events, unknown trust level, re-apply through the PLog cache, re-read updates,
+// partial batches, duplicate ids); random multi-event scenarios over all record kinds.
 
 import (
 	"encoding/json"
@@ -39,18 +40,38 @@ func event(pofs, wofs uint64, stamp int64, creates, updates []recSpec) *evSpec {
 	return &evSpec{Part: part, POfs: pofs, WS: ws, WOfs: wofs, Stamp: stamp, Creates: creates, Updates: updates}
 }
 
-// cell builds the scenario of one matrix cell; v selects the boundary variant of offsets and ids
-func cell(backend string, trust int, kind, state string, v int) *scenario {
+// recs: the rows an event needs to write record x of kind rk. Nested records (Item, WItem) come with
+// their parent document in the first event (parent raw reference) and alone, under the stored
+// parent id, in later ones.
+func recs(rk string, x uint64, stamp int64, first bool) []recSpec {
+	k := kindOf(rk)
+	if k.Parent == "" {
+		return []recSpec{{Kind: rk, ID: x, Stamp: stamp, Pad: "p"}}
+	}
+	if first {
+		return []recSpec{{Kind: k.Parent, ID: x + 100, Stamp: stamp + 50, Pad: "p"}, {Kind: rk, ID: x, Stamp: stamp, Pad: "p", ParentRaw: 1}}
+	}
+	return []recSpec{{Kind: rk, ID: x, Stamp: stamp, Pad: "p", Parent: x + 100}}
+}
+
+// cell builds the scenario of one matrix cell; rk is the record kind (record operations only);
+// v selects the boundary variant of offsets and ids and, for creates, the history: both events built
+// from the same stale state before either is applied (always for singletons, whose second create
+// cannot be built once the first is applied) or built one after the other
+func cell(backend string, trust int, kind, rk, state string, v int) *scenario {
 	po, wo, x := ofsPool[v%len(ofsPool)], ofsPool[(v+2)%len(ofsPool)], idPool[v%len(idPool)]
-	sc := &scenario{Cell: fmt.Sprintf("%s/%s/t%d/%s", kind, state, trust, backend), Backend: backend, Trust: trust}
+	sc := &scenario{Cell: fmt.Sprintf("%s/%s/%s/t%d/%s", kind, rk, state, trust, backend), Backend: backend, Trust: trust}
 	add := func(ops ...*op) { sc.Ops = append(sc.Ops, ops...) }
-	a := event(po, wo, 1001, []recSpec{cr(x, 501)}, nil)
+	if rk == "" {
+		rk = "Doc"
+	}
+	a := event(po, wo, 1001, recs(rk, x, 501, true), nil)
 	switch kind {
 	case "plog":
 		add(bld("A", a), do("plog", "A"))
 		switch state {
 		case "identical":
-			add(bld("A2", event(po, wo, 1001, []recSpec{cr(x, 501)}, nil)), do("plog", "A2"))
+			add(bld("A2", event(po, wo, 1001, recs(rk, x, 501, true), nil)), do("plog", "A2"))
 		case "different":
 			add(bld("B", event(po, wo+1, 1002, []recSpec{cr(x+1, 502)}, nil)), do("plog", "B"))
 		}
@@ -63,12 +84,19 @@ func cell(backend string, trust int, kind, state string, v int) *scenario {
 			add(bld("B", event(po+1, wo, 1002, []recSpec{cr(x+1, 502)}, nil)), do("plog", "B"), do("wlog", "B"))
 		}
 	case "create":
-		add(bld("A", a), do("plog", "A"), do("apply", "A"))
-		switch state {
-		case "identical":
-			add(bld("A2", event(po+1, wo+1, 1002, []recSpec{cr(x, 501)}, nil)), do("plog", "A2"), do("apply", "A2"))
-		case "different":
-			add(bld("B", event(po+1, wo+1, 1002, []recSpec{cr(x, 502)}, nil)), do("plog", "B"), do("apply", "B"))
+		if state == "empty" {
+			add(bld("A", a), do("plog", "A"), do("apply", "A"))
+			break
+		}
+		st := int64(502)
+		if state == "identical" {
+			st = 501
+		}
+		b := event(po+1, wo+1, 1002, recs(rk, x, st, false), nil)
+		if kindOf(rk).Singleton || v%2 == 1 {
+			add(bld("A", a), bld("B", b), do("plog", "A"), do("apply", "A"), do("plog", "B"), do("apply", "B"))
+		} else {
+			add(bld("A", a), do("plog", "A"), do("apply", "A"), bld("B", b), do("plog", "B"), do("apply", "B"))
 		}
 	case "update":
 		add(bld("A", a), do("plog", "A"), do("apply", "A"))
@@ -76,9 +104,9 @@ func cell(backend string, trust int, kind, state string, v int) *scenario {
 		if state == "identical" {
 			st = 501
 		}
-		add(bld("U", event(po+1, wo+1, 1002, nil, []recSpec{cr(x, st)})), do("plog", "U"))
+		add(bld("U", event(po+1, wo+1, 1002, nil, []recSpec{{Kind: rk, ID: x, Stamp: st, Pad: "p"}})), do("plog", "U"))
 		if state == "empty" {
-			add(&op{Op: "rawdel", WS: ws, ID: x})
+			add(&op{Op: "rawdel", WS: ws, ID: x, Kind: rk})
 		}
 		add(do("apply", "U"))
 	case "reapply":
@@ -89,11 +117,21 @@ func cell(backend string, trust int, kind, state string, v int) *scenario {
 			add(bld("A", a), do("plog", "A"), do("apply", "A"), do("wlog", "A"))
 		case "different":
 			add(bld("A", a), do("plog", "A"))
-			add(bld("B", event(po+1, wo, 1002, []recSpec{cr(x, 502)}, nil)), do("plog", "B"), do("apply", "B"), do("wlog", "B"))
+			add(bld("B", event(po+1, wo, 1002, recs(rk, x, 502, true), nil)), do("plog", "B"), do("apply", "B"), do("wlog", "B"))
 		}
 		add(&op{Op: "restart"}, reread("A", "R"), do("reapply_recs", "R"), do("reapply_wlog", "R"))
 	}
 	return sc
+}
+
+var recordOps = map[string]bool{"create": true, "update": true, "reapply": true}
+
+func kindNames() []string {
+	var out []string
+	for _, k := range recKinds {
+		out = append(out, k.Name)
+	}
+	return out
 }
 
 func matrix(r *kit.Rng) []*scenario {
@@ -101,8 +139,14 @@ func matrix(r *kit.Rng) []*scenario {
 	for _, b := range backends {
 		for t := 0; t <= 2; t++ {
 			for _, k := range kinds {
-				for _, s := range states {
-					out = append(out, cell(b, t, k, s, r.Intn(20)))
+				rks := []string{""}
+				if recordOps[k] {
+					rks = kindNames()
+				}
+				for _, rk := range rks {
+					for _, s := range states {
+						out = append(out, cell(b, t, k, rk, s, r.Intn(20)))
+					}
 				}
 			}
 		}
@@ -110,13 +154,21 @@ func matrix(r *kit.Rng) []*scenario {
 	return out
 }
 
+// matrixTags: the cells that must have been reached, judged from the observed rows
 func matrixTags() []string {
 	var out []string
 	for _, b := range backends {
 		for t := 0; t <= 2; t++ {
 			for _, k := range kinds {
 				for _, s := range states {
-					out = append(out, fmt.Sprintf("cell:t%d:%s:%s:%s", t, k, s, b))
+					if !recordOps[k] || k == "reapply" {
+						out = append(out, fmt.Sprintf("cell:t%d:%s:%s:%s", t, k, s, b))
+					}
+					if recordOps[k] {
+						for _, rk := range kindNames() {
+							out = append(out, fmt.Sprintf("cell:t%d:%s:%s:%s:%s", t, k, rk, s, b))
+						}
+					}
 				}
 			}
 		}
@@ -180,6 +232,27 @@ func extras() []*scenario {
 		// the id generator hands out one id twice inside an event
 		mk("duplicate-ids", "mem", t, bld("D", event(3, 3, 1001, []recSpec{cr(200001, 501), cr(200001, 502)}, nil)), do("plog", "D"), do("apply", "D"))
 	}
+	// every record kind: the same event applied twice (same object / read back after a restart), and a
+	// create event applied after the record was updated by a later event
+	for t := 0; t <= 2; t++ {
+		for i, k := range recKinds {
+			b := backends[(i+t)%len(backends)]
+			x := idPool[(i+t)%len(idPool)]
+			mk("apply-twice/same-object/"+k.Name, b, t, bld("A", event(3, 3, 1001, recs(k.Name, x, 501, true), nil)), do("plog", "A"), do("apply", "A"), do("apply", "A"))
+			mk("apply-twice/reread/"+k.Name, b, t, bld("A", event(3, 3, 1001, recs(k.Name, x, 501, true), nil)), do("plog", "A"), do("apply", "A"),
+				bld("U", event(4, 4, 1002, nil, []recSpec{{Kind: k.Name, ID: x, Stamp: 601}})), do("plog", "U"), do("apply", "U"),
+				&op{Op: "restart"}, reread("A", "R"), do("apply", "R"), do("reapply_recs", "R"))
+		}
+		// a create that carries its storage id (the path of synced events: no raw id, no generator)
+		mk("direct-id", "mem", t, bld("A", event(3, 3, 1001, one(200001, 501), nil)), do("plog", "A"), do("apply", "A"),
+			bld("D", event(4, 4, 1002, []recSpec{{ID: 200001, Stamp: 502, Direct: true}, {Kind: "WDoc", ID: 200002, Stamp: 503, Direct: true}}, nil)), do("plog", "D"), do("apply", "D"))
+		// operation documents / records of the command argument live in the logs only: Apply writes the CUD rows alone
+		mk("odoc-argument", "bbolt", t,
+			bld("O", &evSpec{Part: part, POfs: 3, WS: ws, WOfs: 3, Stamp: 1001, Arg: &argSpec{ID: 200010, LineID: 200011, Stamp: 701}, Creates: one(200001, 501)}),
+			do("plog", "O"), do("apply", "O"), do("wlog", "O"),
+			bld("O2", &evSpec{Part: part, POfs: 4, WS: ws, WOfs: 4, Stamp: 1002, Arg: &argSpec{ID: 200010, LineID: 200001, Stamp: 702}, Creates: one(200011, 502)}),
+			do("plog", "O2"), do("apply", "O2"), do("wlog", "O2"), do("apply", "O"))
+	}
 	// a trust level the switch has no arm for
 	mk("unknown-trust-level", "mem", 3, bld("A", event(3, 3, 1001, one(200001, 501), nil)), do("plog", "A"))
 	return out
@@ -195,17 +268,23 @@ func genScenario(r *kit.Rng, tier string) *scenario {
 	nextP, nextW := pbase, wbase
 	stamp := int64(1000)
 	rstamp := int64(500)
-	rec := func(id uint64) recSpec {
+	// the records of the scenario: one fixed kind per id; singletons have their own fixed ids
+	pool := []recSpec{{Kind: "Doc", ID: ids[0]}, {Kind: "Doc", ID: ids[1]}, {Kind: "WDoc", ID: ids[2]}, {Kind: "Item", ID: ids[3], Parent: ids[0]},
+		{Kind: "WItem", ID: ids[4], Parent: ids[2]}, {Kind: "Settings"}, {Kind: "WState"}}
+	rec := func(i int) recSpec {
 		rstamp++
-		st := rstamp
+		rs := pool[i]
+		rs.Stamp = rstamp
 		if r.Chance(1, 5) {
-			st = 501 // same content as an earlier write of this record, possibly
+			rs.Stamp = 501 // same content as an earlier write of this record, possibly
 		}
-		return recSpec{ID: id, Stamp: st, Pad: kit.Pick(r, []string{"", "p", "padding"})}
+		rs.Pad = kit.Pick(r, []string{"", "p", "padding"})
+		return rs
 	}
 	// the first event creates two records so that later updates always have a target
 	add(bld("E0", event(nextP, nextW, stamp, []recSpec{{ID: ids[0], Stamp: 501, Pad: "p"}, {ID: ids[1], Stamp: 501}}, nil)),
 		do("plog", "E0"), do("apply", "E0"), do("wlog", "E0"))
+	var deferred []*op
 	n := 2 + r.Intn(5)
 	if tier == "thorough" {
 		n += r.Intn(6)
@@ -226,24 +305,33 @@ func genScenario(r *kit.Rng, tier string) *scenario {
 		}
 		var creates, updates []recSpec
 		for i, k := 0, r.Intn(4); i < k; i++ {
-			creates = append(creates, rec(ids[r.Intn(len(ids))]))
+			creates = append(creates, rec(r.Intn(len(pool))))
 		}
-		seen := map[uint64]bool{}
+		seen := map[int]bool{}
 		for i, k := 0, r.Intn(3); i < k; i++ {
-			id := ids[r.Intn(2)]
-			if !seen[id] {
-				seen[id] = true
-				updates = append(updates, rec(id))
+			j := r.Intn(2)
+			if r.Chance(1, 8) {
+				j = 5 + r.Intn(2) // a singleton (the event is skipped when it does not exist yet)
+			}
+			if !seen[j] {
+				seen[j] = true
+				updates = append(updates, rec(j))
 			}
 		}
 		if len(creates)+len(updates) == 0 {
-			creates = append(creates, rec(ids[2+r.Intn(3)]))
+			creates = append(creates, rec(2+r.Intn(5)))
 		}
 		ev := event(po, wo, stamp, creates, updates)
 		if r.Chance(1, 12) {
 			ev = &evSpec{Part: part, POfs: po, WS: ws, WOfs: wo, Stamp: stamp, Corrupted: true}
 		}
-		add(bld(name, ev), do("plog", name))
+		// the event is built now; with some probability it is stored and applied only after the next
+		// event has been built too (two events validated against the same stale state)
+		sc.Ops = append(sc.Ops, bld(name, ev))
+		sc.Ops = append(sc.Ops, deferred...)
+		deferred = nil
+		mark := len(sc.Ops)
+		add(do("plog", name))
 		if !ev.Corrupted && r.Chance(4, 5) {
 			add(do("apply", name))
 			if r.Chance(1, 8) {
@@ -267,6 +355,10 @@ func genScenario(r *kit.Rng, tier string) *scenario {
 			if r.Chance(1, 4) {
 				add(do("apply", as))
 			}
+		}
+		if e < n && r.Chance(1, 3) {
+			deferred = append([]*op{}, sc.Ops[mark:]...)
+			sc.Ops = sc.Ops[:mark]
 		}
 	}
 	return sc
